@@ -101,6 +101,70 @@ class Judge:
                 return
 
 
+def plumbing(J):
+    """EngineBase.calculate_order hands positions, velocities (with the frame's velocity direction) and box to
+    the order function — both when they are read from the configuration file and when the engine passes the
+    arrays it has just read (what every engine does for each frame while propagating)."""
+    from infretis.classes.engines.enginebase import EngineBase
+    from infretis.classes.system import System
+
+    pos = np.array([[0.25, -0.5, 0.75], [1.0, 0.25, -0.25]])
+    vel = np.array([[0.5, -1.0, 0.25], [-0.25, 0.5, 1.0]])
+    box = np.array([4.0, 5.0, 6.0])
+
+    class Eng(EngineBase):
+        def __init__(self):
+            pass
+
+        def _read_configuration(self, filename):
+            return pos.copy(), vel.copy(), box.copy(), None
+
+        def _extract_frame(self, *a, **k):
+            raise NotImplementedError
+
+        def _propagate_from(self, *a, **k):
+            raise NotImplementedError
+
+        def _reverse_velocities(self, *a, **k):
+            raise NotImplementedError
+
+        def modify_velocities(self, *a, **k):
+            raise NotImplementedError
+
+        def set_mdrun(self, *a, **k):
+            raise NotImplementedError
+
+    cases = [("Velocity", op.Velocity(1, "y"), -1.0), ("Distancevel", op.Distancevel((0, 1), periodic=True), -1.0),
+             ("Distance", op.Distance((0, 1), periodic=True), 1.0), ("Position", op.Position((1, 2), periodic=False), 1.0)]
+    for name, fn, sign in cases:
+        eng = Eng()
+        eng.order_function = fn
+        vals = {}
+        for rev in (False, True):
+            for how in ("file", "arrays"):
+                s = System()
+                s.config = ("conf", 0)
+                s.vel_rev = rev
+                J.n += 1
+                try:
+                    if how == "file":
+                        v = eng.calculate_order(s)
+                    else:
+                        v = eng.calculate_order(s, xyz=pos.copy(), vel=vel.copy(), box=box.copy())
+                except Exception as e:  # noqa: BLE001
+                    J.fail(f"plumbing:{name}:raised", f"{type(e).__name__}: {e}", (name, rev, how))
+                    continue
+                vals[(rev, how)] = float(v[0])
+        if len(vals) < 4:
+            continue
+        for rev in (False, True):
+            if abs(vals[(rev, "file")] - vals[(rev, "arrays")]) > TOL:
+                J.fail(f"plumbing:{name}:file-vs-arrays", f"vel_rev={rev}: {vals[(rev, 'file')]} when read from the file, {vals[(rev, 'arrays')]} when the same arrays are passed", (name, rev))
+        for how in ("file", "arrays"):
+            if abs(vals[(True, how)] - sign * vals[(False, how)]) > TOL:
+                J.fail(f"plumbing:{name}:velocity-reversal", f"via {how}: {vals[(False, how)]} forward, {vals[(True, how)]} with reversed velocities (expected factor {sign})", (name, how))
+
+
 def geometries4():
     """Non-degenerate 4-atom geometries on the dyadic grid (dihedral)."""
     base = [
@@ -266,6 +330,7 @@ def run(ctx):
                             p2 = g.copy()
                             p2[atom] += np.array(sh) * np.array(b)
                             J.close("Puckering", ref, J.calc("Puckering", Pk, mk(p2, None, box), "i"), "image-shift", (b, atom, sh), angle=True)
+    plumbing(J)
     ctx.set("evaluations", J.n)
     ctx.set("rule", "all relative vectors on a half-integer grid x boxes x box forms x {translations, 27 image shifts per atom, 24 cube rotations, velocity reversal}; "
                     "tables of 4- and 6-atom geometries for dihedral/puckering; distinct = (parameter, periodic, box, reference value class)")
